@@ -65,6 +65,12 @@ F: Dict[str, Dict[str, Any]] = {
                                       'pk/cyc2.py': '"""c2"""\nfrom .cyc1 import Base0\nclass Derived0(Base0):\n    "d"\n    def bm(self): pass\nclass Leaf0(Derived0):\n    "l"\n'}},
     'same-short-names': {'__files__': {'pk/client.py': '"""cl"""\nclass Options:\n    "o"\nclass Extended(Options):\n    class Meta:\n        "m"\n    class Inner(Options):\n        "i"\n',
                                        'pk/server.py': '"""sv"""\nclass Options:\n    "o"\nclass Extended(Options):\n    class Meta:\n        "m"\n    class Inner(Options):\n        "i"\ndef Meta(): "f"\n'}},
+    'reexport-func-default': {'__files__': {'pk/rx2/__init__.py': '"""rx2"""\nfrom ._impl import moved, MovedK\n__all__ = ["moved", "MovedK"]\n',
+                                            'pk/rx2/_impl.py': '"""impl"""\ndef helper(): "h"\ndef moved(a=helper, b: "helper" = 1):\n    "see L{pk.rx2._impl.helper} and L{helper} and L{moved}"\n'
+                                                               'class MovedK:\n    "k L{helper}"\n    def m(self, x=helper): "L{helper} L{MovedK.m}"\n'}},
+    'reexport-onto-module-name': {'__files__': {'pk/pfoo/__init__.py': '"""pfoo"""\nfrom .foo import foo\n__all__ = ["foo"]\n', 'pk/pfoo/foo.py': '"""foo mod"""\ndef foo(): "f"\nclass Other:\n    "o"\n    def om(self): "L{foo}"\n'}},
+    'rst-internal-targets': {'__files__': {'pk/rstmod.py': '__docformat__ = "restructuredtext"\n"""rst"""\ndef rf():\n    """\n    Summary, see more_ and [1]_.\n\n    .. _more:\n\n    Details here [#]_ and |sub|.\n\n'
+                                                           '    .. [1] footnote text\n    .. [#] auto footnote\n    .. |sub| replace:: substituted\n    """\nclass RK:\n    """\n    Class summary with target_.\n\n    .. _target:\n\n    Body.\n    """\n'}},
     'many-mods':     {'__files__': {f'pk/many/m{i:02d}.py': f'"""m{i}."""\n' for i in range(52)} | {'pk/many/__init__.py': '"""Many."""\n'}},
 }
 NAMES = list(F)
@@ -90,22 +96,41 @@ def project(feats: Sequence[str]) -> Tuple[Dict[str, str], List[str], List[str]]
     return files, args, roots
 
 
+VOID = {'area', 'base', 'br', 'col', 'embed', 'hr', 'img', 'input', 'link', 'meta', 'param', 'source', 'track', 'wbr'}
+
+
 class Pg(HTMLParser):
     def __init__(self) -> None:
         super().__init__(convert_charrefs=True)
         self.links: List[Tuple[str, str, str, str]] = []
+        self.where: Dict[Tuple[str, str, str, str], str] = {}      # link -> 'sidebar' | 'main' (first occurrence)
         self.anchors: Set[str] = set()
+        self._stack: List[Tuple[str, bool]] = []
 
     def handle_starttag(self, tag: str, attrs: List[Tuple[str, Optional[str]]]) -> None:
         a = dict(attrs)
+        in_sidebar = (bool(self._stack) and self._stack[-1][1]) or 'sidebar' in (a.get('class') or '').lower()
+        if tag not in VOID:
+            self._stack.append((tag, in_sidebar))
         for k in ('href', 'src'):
             if a.get(k) is not None:
-                self.links.append((tag, a.get('class') or '', k, a[k] or ''))
+                link = (tag, a.get('class') or '', k, a[k] or '')
+                self.links.append(link)
+                self.where.setdefault(link, 'sidebar' if in_sidebar else 'main')
         for k in ('id', 'name'):
             if a.get(k) is not None and tag != 'meta':
                 self.anchors.add(a[k] or '')
 
-    handle_startendtag = handle_starttag  # type: ignore
+    def handle_startendtag(self, tag: str, attrs: List[Tuple[str, Optional[str]]]) -> None:
+        self.handle_starttag(tag, attrs)
+        if tag not in VOID and self._stack:
+            self._stack.pop()
+
+    def handle_endtag(self, tag: str) -> None:
+        for i in range(len(self._stack) - 1, -1, -1):
+            if self._stack[i][0] == tag:
+                del self._stack[i:]
+                break
 
 
 SUMMARY_PAGES = ('nameIndex.html', 'classIndex.html', 'moduleIndex.html', 'undoccedSummary.html', 'all-documents.html', 'index.html')
@@ -120,6 +145,16 @@ def parse_pages(out: str) -> Dict[str, Pg]:
             p.feed(open(os.path.join(out, f), encoding='utf-8').read())
             pages[f] = p
     return pages
+
+
+def unreachable_through_contents(o: Any) -> bool:
+    """the object, or a container of it, was replaced in its parent's contents by another object of the same name (e.g. a module shadowed by a
+    function re-exported under the module's own name): the writer, which walks contents, never reaches it"""
+    while o.parent is not None:
+        if o.parent.contents.get(o.name) is not o:
+            return True
+        o = o.parent
+    return False
 
 
 def crawl(out: str, system: Any, pages: Optional[Dict[str, Pg]] = None) -> List[Tuple[Tuple[str, ...], str]]:
@@ -149,6 +184,8 @@ def crawl(out: str, system: Any, pages: Optional[Dict[str, Pg]] = None) -> List[
             if clause:
                 o = byurl.get(full)
                 cat = 'no-object' if o is None else ('hidden-target' if not o.isVisible else ('superseded-duplicate' if _dup.search(o.fullName()) else 'visible'))
+                if cat == 'visible' and unreachable_through_contents(o):
+                    cat = 'inside-replaced-module'
                 if o is None and tf == 'classIndex.html' and frag in system.allobjects:
                     # an entry of the class hierarchy: say whether the class hangs below a superseded duplicate definition (known finding) or not
                     target = system.allobjects[frag]
@@ -162,6 +199,10 @@ def crawl(out: str, system: Any, pages: Optional[Dict[str, Pg]] = None) -> List[
                 hint = ''
                 if cat in ('no-object', 'visible', 'hierarchy-entry', 'hierarchy-entry-below-superseded-class'):
                     hint = 'toc-entry' if frag.startswith('rst-toc-entry') else ('same-page-fragment' if path == '' else 'other-page')
+                    if hint == 'same-page-fragment':
+                        # where the link stands (sidebar table of contents / page body) and whether the anchor exists on another page
+                        # (a piece of a docstring shown away from the rest of it, e.g. its summary) or nowhere
+                        hint += '@' + p.where.get((tag, cls, k, u), 'main') + ('/anchor-on-another-page' if any(frag in q.anchors for q in pages.values()) else '/anchor-nowhere')
                 sigs.append(((clause, producer, cat, srcpage, hint), f'{f}: {k}={u!r} -> {clause} ({cat})'))
     # all-documents url fields
     ad = os.path.join(out, 'all-documents.html')
@@ -183,7 +224,7 @@ def crawl(out: str, system: Any, pages: Optional[Dict[str, Pg]] = None) -> List[
         u = unquote(o.url)
         path, frag = urldefrag(u)
         if not os.path.exists(os.path.join(out, path)):
-            sigs.append((('visible-object-without-page', '', type(o).__name__, '', ''), f'{k}: no file {path}'))
+            sigs.append((('visible-object-without-page', 'inside-replaced-module' if unreachable_through_contents(o) else '', type(o).__name__, '', ''), f'{k}: no file {path}'))
         elif frag and frag not in pages[path].anchors:
             sigs.append((('visible-object-without-anchor', '', type(o).__name__, '', ''), f'{k}: no anchor {frag} in {path}'))
         elif not frag and isinstance(o, (model.Module, model.Class)):
